@@ -527,6 +527,11 @@ def kwarg_programs(dev):
             {"op": "transfer", "src": T, "sw": L([(0, 0), (1, 0)]), "dst": P, "dw": L([(0, 1), (1, 1)]), "vols": L([4, 11]), "label": "kw", "wash": 1, "kw": kw},
             {"op": "aspirate", "lw": P, "wells": L([(0, 0), (0, 1)]), "vols": L([1, 2]), "label": "a", "kw": kw},
             {"op": "dispense", "lw": P, "wells": L([(2, 2)]), "vols": S(3), "label": None, "kw": kw},
+            # everything at once: label, compositions, keyword arguments, several wells
+            {"op": "dispense", "lw": P, "wells": L([(0, 3), (1, 3)]), "vols": L([2, 3]), "label": "all together", "kw": kw,
+             "comps": [{"dye": (1, 1)}, {"dye": (1, 2), "water": (1, 2)}]},
+            {"op": "aspirate", "lw": P, "wells": L([(0, 3), (1, 3)]), "vols": L([2, 3]), "label": "take it all back", "kw": kw},
+            {"op": "dispense", "lw": P, "wells": L([(0, 3), (1, 3)]), "vols": L([1, 1]), "label": "refill", "kw": kw, "comps": [{"salt": (1, 1)}, {"salt": (1, 1)}]},
         ]
         progs.append(h)
     for name, fld, val in [("lc", "lc", "a;b"), ("sid", "sid", "x" * 33), ("stype", "stype", "s;t"), ("did", "did", ";"), ("dtype", "dtype", "d" * 33),
